@@ -23,7 +23,11 @@ def doc_corpus():
     O = ("class O { public constructor() -> O = default;\n  public function f(A a) -> string { return \"f(A)\"; }\n  public function f(B b) -> string { return \"f(B)\"; }\n"
          "  public function h(int a) -> string { return \"h(int)\"; }\n  public function h(long a) -> string { return \"h(long)\"; } }\n")
     GB = 'class Box<T> {\n  public T v;\n  public constructor(T v) -> Box<T> { this.v = v; return this; }\n  public function get() -> T { return this.v; }\n  public virtual function put(T x) -> void { this.v = x; }\n}\nclass IBox extends Box<int> {\n  public constructor() -> IBox { super(1); return this; }\n  public function twice() -> int { int y = get(); put(y + y); int z = super.get(); return z; }\n}\nclass SubBox<U> extends Box<U> {\n  public constructor(U u) -> SubBox<U> { super(u); return this; }\n  public function again(U x) -> U { put(x); super.put(x); U r = get(); return r; }\n}\nfunction main() -> void { IBox i = new IBox(); echo(i.twice()); SubBox<string> s = new SubBox<string>("a"); echo(s.again("b")); }\n'
+    SINK = ("class Dog { public constructor() -> Dog = default; }\nclass Sink<T> { public constructor() -> Sink<T> = default; public virtual function put(T x) -> void; }\n"
+            "class DogSink extends Sink<Dog> { public constructor() -> DogSink { super(); return this; } public override function put(Dog x) -> void { echo(\"dog\"); } }\n"
+            "function main() -> void { Sink<Dog> s = new DogSink(); s.put(new Dog()); }")
     return [
+        ("an abstract method of a generic base implemented in terms of the type argument", SINK, "dog\n"),
         ("bare and super calls of methods inherited from a generic base take the base's type arguments", GB, "2\nb\n"),
         ("after destroy a variable is a null reference of its class",
          AB + O + "class Dg { public constructor() -> Dg = default; public destructor() -> Dg { echo(\"~Dg\"); } }\n"
